@@ -275,7 +275,11 @@ class FaultMonitor(solvex.Monitor):
             if not any(np.max(np.abs(c["x"] - x)) <= 1e-12 * sc for c in ex.calls):
                 ex.violate("x_was_evaluated", "soln.x=%s is not one of the %d evaluated points" % (x.tolist(), len(ex.calls)))
         if first is not None:
-            before = [c["f"] for c in ex.calls[:first["k"] - 1] if c["f"] is not None and np.isfinite(c["f"])]
+            # "a finite best point found earlier": under averaging an evaluation is one SAMPLE of a point; samples of the very
+            # point the fault lands on are not an earlier point (its mean legitimately contains the bad sample - C03 requires
+            # soln.resid to be the mean of everything returned there, so no implementation could return a finite value for it)
+            before = [c["f"] for c in ex.calls[:first["k"] - 1] if c["f"] is not None and np.isfinite(c["f"])
+                      and (c.get("pt_num") is None or c.get("pt_num") != first.get("pt_num") or c.get("run") != first.get("run"))]
             if before:
                 if s.obj is None or not np.isfinite(s.obj):
                     ex.violate("finite_obj_kept", "a finite value %r was seen before the fault at call %d (%s, %s) but soln.obj=%r [%s]" % (
